@@ -99,6 +99,41 @@ def _memo_keyed(cls):
     raise Untranslatable("_make_ansi_codes: memo test has an unknown shape")
 
 
+def _memo_assign(fn, var, what):
+    """the single `<var>._ansi = <rhs>` of a constructor-like method: 'carried' (self._ansi) or 'reset' (None)"""
+    found = []
+    for node in ast.walk(fn):
+        if isinstance(node, ast.Call) and isinstance(node.func, ast.Attribute) and node.func.attr == "copy" \
+                and _d(node.func.value) == _expr("self"):
+            raise Untranslatable(f"{what}: built on self.copy() -- which slots it resets is not of a known shape")
+        if isinstance(node, ast.Assign) and len(node.targets) == 1 and isinstance(node.targets[0], ast.Attribute) \
+                and node.targets[0].attr == "_ansi":
+            found.append(node)
+    if len(found) != 1:
+        raise Untranslatable(f"{what}: expected exactly one assignment to ._ansi, found {len(found)}")
+    node = found[0]
+    tgt = node.targets[0].value
+    if not (isinstance(tgt, ast.Name) and tgt.id == var):
+        raise Untranslatable(f"{what}: ._ansi assigned on an unexpected object")
+    news = [n for n in ast.walk(fn) if isinstance(n, ast.Assign) and isinstance(n.targets[0], ast.Name)
+            and n.targets[0].id == var]
+    if len(news) != 1 or _d(news[0].value) != _expr("self.__new__(Style)"):
+        raise Untranslatable(f"{what}: {var} is not created by self.__new__(Style)")
+    if _d(node.value) == _expr("self._ansi"):
+        return True
+    if isinstance(node.value, ast.Constant) and node.value.value is None:
+        return False
+    raise Untranslatable(f"{what}: ._ansi assigned something else")
+
+
+def _memo_carrying(cls):
+    """(copy, update_link, without_color, __add__) -> does the derived style inherit `_ansi`?"""
+    return (_memo_assign(find_func(cls.body, "copy"), "style", "Style.copy"),
+            _memo_assign(find_func(cls.body, "update_link"), "style", "Style.update_link"),
+            _memo_assign(find_func(cls.body, "without_color"), "style", "Style.without_color"),
+            _memo_assign(find_func(cls.body, "__add__"), "new_style", "Style.__add__"))
+
+
 _RENDER_CALL = "append(style.render(text, color_system=color_system, legacy_windows=legacy_windows))"
 
 
@@ -135,6 +170,7 @@ def gen_ansi_facts(repo):
     sgr_parts, link_parts = _render(cls)
     keyed = _memo_keyed(cls)
     guard_first = _render_buffer(repo)
+    carried = _memo_carrying(cls)
     out = HEADER
     out += "(* Style.render: f\"<0>{attrs}<1>{text}<2>\" *)\n"
     out += "Definition RENDER_SGR_PARTS : list (list Z) :=\n  [" + ";\n   ".join(strlit(p) for p in sgr_parts) + "].\n\n"
@@ -146,5 +182,9 @@ def gen_ansi_facts(repo):
             "   (false: rich 9.10.0 as found, `if style: ... elif not (not_terminal and is_control): ...`);\n"
             "   also checked: style.render(text, color_system=color_system, legacy_windows=legacy_windows),\n"
             "   `if self.no_color and color_system: buffer = Segment.remove_color(buffer)` before the loop *)\n")
-    out += f"Definition RENDER_BUFFER_CONTROL_GUARD_FIRST : bool := {'true' if guard_first else 'false'}.\n"
+    out += f"Definition RENDER_BUFFER_CONTROL_GUARD_FIRST : bool := {'true' if guard_first else 'false'}.\n\n"
+    out += ("(* does the style built by copy / update_link / without_color / __add__ (general branch) inherit the\n"
+            "   `_ansi` memo of its source (`style._ansi = self._ansi`) or start empty (`= None`)? *)\n")
+    for name, v in zip(("COPY", "UPDATE_LINK", "WITHOUT_COLOR", "ADD"), carried):
+        out += f"Definition {name}_CARRIES_MEMO : bool := {'true' if v else 'false'}.\n"
     return out
